@@ -252,6 +252,17 @@ def rule_dir_comp(repo):
     f = repo.func(IMU, CLS + '.integrate')
     inl = inline_straight(f.node)
     cp = [c for c in paths.calls_in(f.node) if dotted(c.func) == 'cumprod']
+    # the accumulated rotation is a PRODUCT of exponentials: Exp of an accumulated sum of rotation vectors (so3(cumsum(w dt)).Exp()) is that product only when all
+    # increments share one axis
+    for c in ast.walk(f.node):
+        if isinstance(c, ast.Call) and isinstance(c.func, ast.Attribute) and c.func.attr == 'Exp':
+            recv = inl.value(c.func.value) if hasattr(inl, 'value') else c.func.value
+            sums = [x for x in ast.walk(recv) if isinstance(x, ast.Call) and (dotted(x.func) or (x.func.attr if isinstance(x.func, ast.Attribute) else '')).split('.')[-1] in ('cumsum', 'sum')]
+            if sums:
+                res.add(Finding('C16.DIR', f, '`%s` exponentiates an accumulated SUM of rotation vectors (`%s`): the product Exp(w_1 dt) .. Exp(w_k dt) of the recursion equals the '
+                                'exponential of the sum only for increments about one common axis' % (src(c)[:60], src(sums[0])[:40]), node=c, construct='Exp of a sum'))
+    if res.findings:
+        return res
     if not cp:
         raise AnalysisError('C16.DIR: integrate no longer calls cumprod')
     for c in cp:
@@ -436,7 +447,7 @@ def rule_grav(repo):
     """Gravity is removed from the measured acceleration the same way whether the rotation is supplied or integrated: a = acc - R^-1 g with R the
     supplied resp. integrated rotation.  The two branches of integrate() are siblings: same sign of the gravity term, same side of the inverse,
     same gravity vector; a change of convention in the buffer (downward vs. upward vector) has to reach both."""
-    res = RuleResult('C16.GRAV', 'integrate(): both branches (supplied / integrated rotation) remove gravity by the same expression acc - R.Inv() @ self.gravity', floor=2)
+    res = RuleResult('C16.GRAV', 'integrate(): both branches (supplied / integrated rotation) remove gravity by the same expression acc - R.Inv() @ self.gravity', floor=3)
     f = repo.func(IMU, CLS + '.integrate')
     forms = []
     for n in ast.walk(f.node):
@@ -460,6 +471,28 @@ def rule_grav(repo):
                         node=forms[0][0], construct='gravity siblings'))
     elif forms[0][1][2:] != ('-', True, False):
         res.add(Finding('C16.GRAV', f, 'gravity is not removed as acc - R.Inv() @ self.gravity (%s)' % (forms[0][1],), node=forms[0][0], construct='gravity form'))
+    # time index of the integrated rotation: the table R_i dR has F+1 entries (the identity is prepended to the increments); the F accelerations
+    # are paired with entries 1..F (the attitude after the k-th gyro increment), the pairing every released result of the integrator was computed
+    # with.  Entries 0..F-1 give a different velocity / position whenever gravity and angular rate are both non-zero.
+    once = {}
+    for a in ast.walk(f.node):
+        if isinstance(a, ast.Assign) and len(a.targets) == 1 and isinstance(a.targets[0], ast.Name):
+            once.setdefault(a.targets[0].id, []).append(a.value)
+    for n, fm in forms:
+        cands = list(ast.walk(n.value))
+        for y in list(cands):
+            # `Rk = inte_rot[:, 1:, :]` ... `Rk.Inv() @ g`: a rotation named first
+            if isinstance(y, ast.Name) and len(once.get(y.id, [])) == 1 and isinstance(once[y.id][0], ast.Subscript):
+                cands.append(once[y.id][0])
+        for x in cands:
+            if isinstance(x, ast.Subscript) and isinstance(x.value, ast.Name) and x.value.id != 'acc' and isinstance(x.slice, ast.Tuple) and len(x.slice.elts) >= 2:
+                fr = x.slice.elts[1]
+                ok = isinstance(fr, ast.Slice) and isinstance(fr.lower, ast.Constant) and fr.lower.value == 1 and fr.upper is None and fr.step is None
+                res.inst({'function': f.fq, 'integrated rotation table': x.value.id, 'frame selection': ast.unparse(fr), 'entries 1..F': ok}, src(n))
+                if not ok:
+                    res.add(Finding('C16.GRAV', f, 'the integrated rotation used to remove gravity is taken at frames [%s] of the F+1-entry table %s, not at 1: '
+                                    '(attitude after the k-th increment): velocity and position differ from the recursion whenever gravity and angular rate are '
+                                    'both non-zero' % (ast.unparse(fr), x.value.id), node=n, construct='gravity frame index'))
     return res
 
 
@@ -679,7 +712,7 @@ def rules(repo, tier):
     from ..callsig import rule_callsig
     from ..docsig import rule_docsig
     from ..axisdefault import rule_axisdefault
-    return list(_rules_core(repo, tier)) + [rule_memo(repo, 'C16.MEMO', 'history independence: nothing computed from the contents of a tensor argument is kept '
+    return list(_rules_core(repo, tier)) + __import__('sa.core', fromlist=['x']).reid([__import__('sa.rules.c05', fromlist=['x']).rule_jr(repo), __import__('sa.rules.c12', fromlist=['x']).rule_negdim(repo, tier)], 'C16') + [rule_memo(repo, 'C16.MEMO', 'history independence: nothing computed from the contents of a tensor argument is kept '
                                                       'under the identity, address or version of that tensor, in module-level storage, or published from a generator '
                                                       'before it is complete - a later call with the same object and other contents must not be answered from it',
                                                       ['pypose.module.imu_preintegrator', 'pypose.basics.ops'], floor=3),
